@@ -38,10 +38,21 @@ func leafMatchers(p *Prog) []*ssa.Function {
 	iface := leafN.Underlying().(*types.Interface)
 	var out []*ssa.Function
 	for _, fn := range p.Funcs() {
-		if fn.Parent() != nil || fn.Signature.Recv() == nil || fn.Pkg != p.SSA["route"] {
+		if fn.Parent() != nil || fn.Pkg != p.SSA["route"] || len(fn.Blocks) == 0 {
 			continue
 		}
-		rt := fn.Signature.Recv().Type()
+		var rt types.Type
+		if fn.Signature.Recv() != nil {
+			rt = fn.Signature.Recv().Type()
+		} else if len(fn.Params) > 0 {
+			// a matcher method turned into a function taking the leaf first
+			rt = fn.Params[0].Type()
+			if _, isPtr := rt.(*types.Pointer); !isPtr {
+				continue
+			}
+		} else {
+			continue
+		}
 		if !types.Implements(rt, iface) && !types.Implements(types.NewPointer(derefT(rt)), iface) {
 			continue
 		}
